@@ -64,6 +64,22 @@ with these differences and additions:
  * `&mut self` functions return the new builder next to their result;
  * the result structure `TC.CharwiseDoubleArrayAhoCorasick V` is read from src/charwise.rs.
 
+THE ENTRY POINT `build` of both builders (`pub fn build<I, P, V>(self, patterns: I)`, `I: IntoIterator<Item = P>`,
+`V: Copy + TryFrom<usize>`; generated `Builder.build` at the end of each unit; Daac/Proofs/TieTopBuild.lean relates it
+to the model `buildPositions`).  Its body is matched TOKEN BY TOKEN against
+
+    let patvals: Vec<_> = patterns.into_iter().enumerate().map(|(i, p)| V::try_from(i).map(|i| (p, i)))
+        .collect::<Result<_, _>>().map_err(|_| DaachorseError::ctor("..", ..))?;
+    self.build_with_values(patvals)
+
+(only the variable names, the constructor `ctor` -- looked up in src/errors.rs -- and its string literals are free;
+any other deviation is an error).  Trusted meaning (prelude of this unit, emitted as `enumTryCollect` into both
+generated files): `V::try_from` is a parameter `conv : Nat -> Option V` (`none` = `Err`); `patterns` is
+`List (List Nat)`; `into_iter().enumerate().map(..).collect::<Result<Vec<_>, _>>()` is the left-to-right traversal
+`enumTryCollect conv 0 patterns` that pairs every pattern with its converted position and stops at the first
+position that does not convert; `.map_err(|_| e)?` turns that `none` into the error kind of `e`; the tail call is
+the translated `build_with_values` of the same unit (signature checked).
+
 Usage: top2lean.py [repo_root] [out_dir]
 """
 import os, re, sys, json, hashlib
@@ -729,6 +745,71 @@ def result_struct(u):
     return '\n'.join(lines) + '\n'
 
 
+BUILD_WHERE = r'where\s*I\s*:\s*IntoIterator\s*<\s*Item\s*=\s*P\s*>\s*,\s*P\s*:\s*AsRef\s*<\s*@ASREF@\s*>\s*,\s*V\s*:\s*Copy\s*\+\s*TryFrom\s*<\s*usize\s*>\s*,?\s*\{'
+
+# the body of `build`, token by token (tokens joined by one space); the only free parts are the names of the
+# local / the parameter / the closure variables, and the error constructor with its string-literal arguments
+BUILD_BODY = (r'\{ let (?P<pv>\w+) : Vec < _ > = (?P<pats>\w+) \. into_iter \( \) \. enumerate \( \) '
+              r'\. map \( \| \( (?P<i>\w+) , (?P<p>\w+) \) \| V :: try_from \( (?P=i) \) \. map \( \| (?P<j>\w+) \| \( (?P=p) , (?P=j) \) \) \) '
+              r'\. collect :: < Result < _ , _ >> \( \) '
+              r'\. map_err \( \| _ \| DaachorseError :: (?P<ctor>\w+) \( (?P<args>"[^"]*"(?: , "[^"]*")*)? ?\) \) \? ; '
+              r'self \. build_with_values \( (?P=pv) \) \}')
+
+ENUM_HELPER = """/-- Meaning of the iterator chain of `build`:
+`it.into_iter().enumerate().map(|(i, p)| V::try_from(i).map(|i| (p, i))).collect::<Result<Vec<_>, _>>()`
+with `conv i` standing for `V::try_from(i)` (`none` = `Err`), started at position `i`: a left-to-right traversal
+pairing every item with its converted position; `collect` into a `Result` stops at the first `Err` (`none`)
+and otherwise yields the pairs in order. -/
+def enumTryCollect {P V : Type} (conv : Nat → Option V) : Nat → List P → Option (List (P × V))
+  | _, [] => some []
+  | i, p :: rest =>
+    match conv i with
+    | none => none
+    | some v =>
+      match enumTryCollect conv (i + 1) rest with
+      | none => none
+      | some r => some ((p, v) :: r)
+"""
+
+
+def gen_build(u):
+    """the entry point `build`: exactly `let patvals: Vec<_> = <the chain>.map_err(|_| DaachorseError::ctor(lits))?;
+    self.build_with_values(patvals)`; the body is matched token by token (any deviation is an error)."""
+    f = u.fns.get((BUILDER, 'build'))
+    where = f'{SRC}:{BUILDER}::build'
+    if f is None: raise TErr(f'{where} not found')
+    bw = BUILD_WHERE.replace('@ASREF@', PROFILES[PROFILE]['ASREF'])
+    if not re.search(r'fn\s+build\s*<\s*I\s*,\s*P\s*,\s*V\s*>\s*\([^)]*\)\s*->\s*[^{]*?' + bw, u.src):
+        raise TErr(f'{where}: generic parameters / `where` clause changed (expected I: IntoIterator<Item = P>, P: AsRef<..>, V: Copy + TryFrom<usize>)')
+    if f['selfkind'] not in ('val', 'mutval'): raise TErr(f'{where}: unsupported receiver kind {f["selfkind"]}')
+    if [(pt.replace(' ', ''), pm) for _, pt, pm in f['params']] != [('I', False)]: raise TErr(f'{where}: parameters changed (expected one parameter of type I)')
+    result, inner = split_result(f['ret'])
+    if not result or rust_tag(inner, where) != 'da': raise TErr(f'{where}: must return Result<{RESULT}<V>>')
+    text = ' '.join(v for _, v in f['body_toks'])
+    m = re.fullmatch(BUILD_BODY, text)
+    if not m:
+        raise TErr(f'{where}: the body is not `let patvals: Vec<_> = patterns.into_iter().enumerate().map(|(i, p)| V::try_from(i).map(|i| (p, i)))'
+                   f'.collect::<Result<_, _>>().map_err(|_| DaachorseError::ctor(..))?; self.build_with_values(patvals)`; found: {text}')
+    if m.group('pats') != f['params'][0][0]: raise TErr(f'{where}: the chain does not start at the parameter `{f["params"][0][0]}`')
+    names = [m.group(k) for k in ('pv', 'pats', 'i', 'p')]
+    if len(set(names)) != 4 or m.group('j') in (m.group('p'), m.group('pv'), m.group('pats')) or 'self' in names or 'V' in names:
+        raise TErr(f'{where}: clashing variable names {names}')
+    if m.group('ctor') not in u.err_ctors: raise TErr(f'{where}: src/errors.rs: unknown error constructor `{m.group("ctor")}`')
+    err = u.err_ctors[m.group('ctor')]
+    bwv = u.own.get('build_with_values')
+    want = u.mk_lean_sig('Builder.build_with_values', [('self', 'Builder'), ('patvals', LEAN_TY['patvals'])], f'Except BuildErr ({LEAN_TY["da"]})')
+    if bwv is None or (bwv['params'], bwv['ret']) != (want['params'], want['ret']):
+        raise TErr(f'{where}: the translated `build_with_values` does not have the signature (self, patvals) -> Result<{RESULT}<V>>')
+    if u.fns[(BUILDER, 'build_with_values')]['selfkind'] not in ('val', 'mutval'): raise TErr(f'{where}: `build_with_values` does not take `self` by value')
+    pv, pats = lname(m.group('pv')), lname(m.group('pats'))
+    lines = [f'/-- `{BUILDER}::build` ({SRC}); `conv` is `V::try_from` (`V: TryFrom<usize>`), `{pats}` the patterns in order -/',
+             f'def Builder.build {{V : Type}} (conv : Nat → Option V) (self : Builder) ({pats} : List (List Nat)) : Except BuildErr ({LEAN_TY["da"]}) :=',
+             f'  match enumTryCollect conv 0 {pats} with',
+             f'  | none => .error {err}',
+             f'  | some {pv} => Builder.build_with_values self {pv}']
+    return ENUM_HELPER + '\n' + '\n'.join(lines) + '\n'
+
+
 HEADER = '''/- GENERATED by tools/top2lean.py from the repository's current source ({src}:
    `{builder}::{{build_sparse_nfa, build_with_values}}`; src/bytewise.rs: `struct {result}`).
    Do not edit.  Translation rules and their trusted base: see the header of tools/top2lean.py and
@@ -782,6 +863,7 @@ def gen(profile, repo, outdir):
         f = u.fns.get((BUILDER, name))
         if f is None: raise TErr(f'{SRC}: {BUILDER}::{name} not found')
         body += '\n' + Tr(u, f).run()
+    body += '\n' + gen_build(u)
     head = (HEADER if profile == 'bytewise' else HEADER_C).format(src=SRC, builder=BUILDER, result=RESULT, nb=u.nb,
                                                                   kinds=', '.join(f'{n} = {b}' for n, b in u.kinds))
     text = head + body + f'\nend Daac.Gen.{NS}\n'
